@@ -11,6 +11,7 @@
 XPath 2.0 implementation - part 3 (functions)
 """
 import math
+from copy import copy
 import datetime
 import time
 import re
@@ -776,9 +777,10 @@ def evaluate__deep_equal(self: XPathFunction, context: ta.ContextType = None) ->
     else:
         collation = self.get_argument(context, 2, required=True, cls=str)
 
+    # the two sequences are consumed in lockstep: each needs its own focus
     return deep_equal(
-        seq1=self[0].select(context),
-        seq2=self[1].select(context),
+        seq1=self[0].select(copy(context)),
+        seq2=self[1].select(copy(context)),
         collation=collation,
     )
 
